@@ -167,12 +167,14 @@ fn link(cfg: &DocCfg) -> BoxedStrategy<Inl> {
     ));
     if cfg.on("wiki") {
         opts.push((2, dest(cfg, true).prop_map(|d| Inl::Link { kind: 1, dest: d, text: vec![], title: None }).boxed()));
-        opts.push((
-            2,
-            (dest(cfg, true), words(1, 2))
-                .prop_map(|(d, t)| Inl::Link { kind: 2, dest: d, text: t, title: None })
-                .boxed(),
-        ));
+        if cfg.on("wiki_piped") {
+            opts.push((
+                2,
+                (dest(cfg, true), words(1, 2))
+                    .prop_map(|(d, t)| Inl::Link { kind: 2, dest: d, text: t, title: None })
+                    .boxed(),
+            ));
+        }
     }
     if cfg.on("autolink") && !cfg.pool.external.is_empty() {
         let exts: Vec<String> = cfg.pool.external.iter().filter(|e| e.starts_with("http")).cloned().collect();
@@ -218,7 +220,11 @@ fn inline_atom(cfg: &DocCfg) -> BoxedStrategy<Inl> {
         opts.push((1, prop_oneof![Just("<b>"), Just("</b>"), Just("<br/>"), Just("<span class=\"x\">")].prop_map(|s| Inl::Html(s.to_string())).boxed()));
     }
     if cfg.on("escape") {
-        opts.push((1, proptest::sample::select(vec!['*', '_', '#', '[', ']', '`', '<', '|', '\\', '!']).prop_map(Inl::Esc).boxed()));
+        let mut chars = vec!['*', '_', '#', '[', ']', '`', '<', '|', '!'];
+        if cfg.on("escape_backslash") {
+            chars.push('\\');
+        }
+        opts.push((1, proptest::sample::select(chars).prop_map(Inl::Esc).boxed()));
     }
     if cfg.hostile {
         opts.push((6, proptest::sample::select(HOSTILE.to_vec()).prop_map(|s| Inl::Raw(s.to_string())).boxed()));
@@ -313,8 +319,19 @@ fn leaf_block(cfg: &DocCfg, ctx: &str) -> BoxedStrategy<Blk> {
     }
     if on("table") {
         let mut cell_cfg = cfg.clone();
+        // the pipe of a piped wiki link would end the cell: not a table any more
+        cell_cfg.features.off.insert("wiki_piped".into());
         if !cfg.on("wiki_in_table") {
             cell_cfg.features.off.insert("wiki".into());
+        }
+        // the table writer escapes literal punctuation itself: escapes in cells are a separate feature
+        if cfg.on("escape_in_table") {
+            cell_cfg.features.off.remove("escape");
+            if !cfg.on("escape_backslash_in_table") {
+                cell_cfg.features.off.insert("escape_backslash".into());
+            }
+        } else {
+            cell_cfg.features.off.insert("escape".into());
         }
         let cell = inlines(&cell_cfg, false, 2);
         let empty_cell = cfg.on("empty_cell");
@@ -362,7 +379,7 @@ fn item_blocks(cfg: &DocCfg, inner: BoxedStrategy<Blk>) -> BoxedStrategy<Vec<Blk
                 vec(code_line(false), 1..3).prop_map(|lines| Blk::Code { fenced: true, tilde: false, flen: 3, lang: String::new(), lines }),
                 words(1, 2).prop_map(|w| Blk::Quote(vec![Blk::Para(w)])),
                 words(1, 1).prop_map(|w| Blk::Table { aligns: vec![0], head: vec![w], rows: vec![], outer_pipes: true }),
-                Just(Blk::Rule(1)),
+                Just(Blk::Rule(2)),
             ]
             .boxed(),
         ));
